@@ -221,8 +221,8 @@ func runC13(tw *TraceWriter, id int, c *Case) {
 }
 
 // dict key / value expectations of the MC_Render dict universe, with package qualifiers normalised to paths
-var keyText = map[string]string{"a": "a", "ab": "ab", "a1": "a1", "1": "1", "f1": "f()", "f2": "f()", "qx": "x/d.K", "qy": "y/d.K"}
-var keyNo = map[string]string{"a": "10", "ab": "11", "a1": "18", "1": "12", "f1": "13", "f2": "14", "qx": "15", "qy": "16", "null": "17"}
+var keyText = map[string]string{"a": "a", "ab": "ab", "a1": "a1", "10": "10", "9": "9", "1": "1", "f1": "f()", "f2": "f()", "qx": "x/d.K", "qy": "y/d.K"}
+var keyNo = map[string]string{"a": "710", "ab": "711", "a1": "718", "10": "719", "9": "720", "1": "712", "f1": "713", "f2": "714", "qx": "715", "qy": "716", "null": "717"}
 
 func expectedPairs(c *Case) []string {
 	out := []string{}
